@@ -25,7 +25,7 @@ PROP = 'C19'
 
 TIERS = {
     'quick': dict(runs=224, wall=300, sweep_max=16, pairs=3),
-    'thorough': dict(runs=6000, wall=2400, sweep_max=60, pairs=8),
+    'thorough': dict(runs=3000, wall=2400, sweep_max=60, pairs=8),
 }
 
 ###############################################################################
@@ -229,7 +229,12 @@ def gen_scenario(seed, cfg):
           'stdout_tty': sim.coin('tty', 0.15),
           'argv_style': sim.weighted('argvstyle', [(5, 'short'), (1.5, 'long'), (1, 'eq'), (1, 'attached'), (1.5, 'after'), (1, 'dashdash')]),
           'locale_encoding': sim.weighted('locale', [(6, 'utf-8'), (1.5, 'ascii'), (1, 'latin-1'), (1, 'cp1252')]),
-          'sweep_seed': sim.subseed('sweep'), 'digest_gen': sim.digest()}
+          'sweep_seed': sim.subseed('sweep')}
+    # (drawn last, so that adding it left every earlier choice of every scenario as it was)
+    if mode == 'file' and path_kind in ('regular', 'symlink', 'relative') and sim.coin('stat_type', 0.12):
+        # the argument is a named pipe or a character device as far as stat() can tell
+        sc['stat_type'] = sim.pick('stat_type_kind', ('fifo', 'fifo', 'chr'))
+    sc['digest_gen'] = sim.digest()
     return sc
 
 
@@ -361,6 +366,8 @@ def run_once(sc, faults):
             except OSError:
                 designated = None
         fs = simio.SimFS(root, faults.get('fs'), locale_encoding=sc.get('locale_encoding'))
+        if sc.get('stat_type') and designated is not None:
+            fs.file_type, fs.retype_id = sc['stat_type'], designated
         out_raw = simio.FaultyRaw('stdout', faults.get('stdout'))
         out_raw.tty = bool(sc.get('stdout_tty'))
         err_raw = simio.FaultyRaw('stderr', faults.get('stderr'))
@@ -661,6 +668,7 @@ def execute(sc, cfg, stats=None, only_plan=None, trace=None):
     count('locale_' + str(sc.get('locale_encoding')))
     count('stdout_' + ('terminal' if sc.get('stdout_tty') else 'file_or_pipe'))
     count('argv_' + sc.get('argv_style', 'short'))
+    count('stattype_' + str(sc.get('stat_type') or 'as_is'))
     count('mode_%s_%s' % (sc['mode'], 'json' if sc['json'] else 'plain'))
     v = judge(sc, base)
     if v:
@@ -1007,6 +1015,7 @@ def main(argv):
         'handlers_reached': {k[8:]: v for k, v in sorted(stats.items()) if k.startswith('handler_')},
         'content_kinds': {k[8:]: v for k, v in sorted(stats.items()) if k.startswith('content_')},
         'path_kinds': {k[5:]: v for k, v in sorted(stats.items()) if k.startswith('path_')},
+        'invocations_by_file_type_reported_by_stat': {k[9:]: v for k, v in sorted(stats.items()) if k.startswith('stattype_')},
         'invocations_by_argv_spelling': {k[5:]: v for k, v in sorted(stats.items()) if k.startswith('argv_')},
         'invocations_by_stdout_kind': {k[7:]: v for k, v in sorted(stats.items()) if k.startswith('stdout_')},
         'invocations_by_locale_encoding': {k[7:]: v for k, v in sorted(stats.items()) if k.startswith('locale_')},
@@ -1024,6 +1033,8 @@ def main(argv):
         'a fault may turn success into failure, never failure into success and never wrong data on stdout; runs in which no fault fired are judged by the strict oracle',
         'the oracle parses the text actually delivered (strict UTF-8 decoding of the bytes on disk at open time, truncated/replaced as injected)',
         'sys.stdout is None (descriptor closed before start) is not simulated',
+        'a named pipe / character device argument is simulated through the type bits of stat() results only (open and read deliver the text, nothing blocks)',
+        'a specification file is UTF-8 text whatever the locale (the locale encoding is a per-run choice of the file-system seam)',
         'invalid command-line options (argparse exit status 2) are outside the statement and not generated',
     ]
     core.write_evidence(PROP, args.tier, master, 'fault_enumeration', coverage, wall, len(new), assumptions)
